@@ -415,6 +415,17 @@ theorem bal_copy (c : CopyImpl) : Bal c.render := by
   unfold CopyImpl.render
   bal2
 
+theorem bal_foldl_wrap (pre : GToks) (g : FieldE → GToks) (hpre : Bal pre) (hg : ∀ f, Bal (g f)) :
+    ∀ (fs : List FieldE) (acc : GToks), Bal acc → Bal (fs.foldl (fun acc f => pre +++ paren (acc +++ g f)) acc) := by
+  intro fs
+  induction fs with
+  | nil => intro acc ha; exact ha
+  | cons f fs ih =>
+    intro acc ha
+    apply ih
+    have := hg f
+    bal2
+
 theorem bal_debugExpr (x : DebugExpr) (toExpr : FieldE → GToks) (h : ∀ f, Bal (toExpr f)) : Bal (x.render toExpr) := by
   cases x with
   | transparent f =>
@@ -423,8 +434,18 @@ theorem bal_debugExpr (x : DebugExpr) (toExpr : FieldE → GToks) (h : ∀ f, Ba
     bal2
   | builder named ident fields =>
     unfold DebugExpr.render
-    have hfin : Bal [dotM "finish", ("(" : GTok), (")" : GTok)] := by unfold Bal; exact fun _ => rfl
-    cases named <;> simp only [if_true, Bool.false_eq_true, if_false] <;> bal2 <;> exact h _
+    cases named <;> simp only [if_true, Bool.false_eq_true, if_false]
+    · have := bal_foldl_wrap (absPath ["core", "fmt", "DebugTuple", "field"]) (fun f => "," ::: toExpr f)
+        (by bal2) (fun f => by have := h f; bal2) fields
+        ((["&", "mut"] : GToks) +++ absPath ["core", "fmt", "Formatter", "debug_tuple"] +++ paren ["__f", ",", nameLit ident])
+        (by bal2)
+      bal2
+    · have := bal_foldl_wrap (absPath ["core", "fmt", "DebugStruct", "field"])
+        (fun f => "," ::: nameLit f.member ::: "," ::: toExpr f)
+        (by bal2) (fun f => by have := h f; bal2) fields
+        ((["&", "mut"] : GToks) +++ absPath ["core", "fmt", "Formatter", "debug_struct"] +++ paren ["__f", ",", nameLit ident])
+        (by bal2)
+      bal2
 
 set_option maxHeartbeats 400000 in
 theorem bal_debug (d : DebugImpl) : Bal d.render := by
